@@ -22,7 +22,12 @@ import (
 var reHex = regexp.MustCompile(`0x[0-9a-fA-F]+`)
 
 // Norm rewrites addresses, which differ between two otherwise identical runs.
-func Norm(s string) string { return reHex.ReplaceAllString(s, "0xPTR") }
+func Norm(s string) string {
+	if !strings.Contains(s, "0x") {
+		return s // the common case, and outputs can be tens of kilobytes long
+	}
+	return reHex.ReplaceAllString(s, "0xPTR")
+}
 
 // SimWriter is the output seam: records every Write, can fail the k-th one.
 type SimWriter struct {
@@ -242,6 +247,45 @@ type Outcome struct {
 	GetErr string // GetTemplate failed
 	Probes *Probes
 	W      *SimWriter
+	// VarsChanged: what Execute did to the caller's VarMap (an input: callers keep and reuse it),
+	// apart from what the templates asked for through Runtime.LetGlobal; "" when untouched
+	VarsChanged string
+}
+
+// varsSnapshot describes a VarMap well enough to notice entries that were removed, added or replaced.
+func varsSnapshot(vm jet.VarMap) map[string]string {
+	m := map[string]string{}
+	for k, v := range vm {
+		if strings.HasPrefix(k, "zq") {
+			continue // declared by the templates themselves through LetGlobal
+		}
+		d := v.Kind().String()
+		switch v.Kind() {
+		case reflect.Ptr, reflect.Func, reflect.Map, reflect.Slice, reflect.Chan:
+			d += fmt.Sprintf("@%x", v.Pointer())
+		case reflect.String, reflect.Int, reflect.Bool:
+			d += fmt.Sprintf("=%v", v.Interface())
+		}
+		m[k] = d
+	}
+	return m
+}
+
+func varsDiff(before, after map[string]string) string {
+	var out []string
+	for _, k := range sim.SortedKeys(before) {
+		if a, ok := after[k]; !ok {
+			out = append(out, k+" removed")
+		} else if a != before[k] {
+			out = append(out, k+" replaced")
+		}
+	}
+	for _, k := range sim.SortedKeys(after) {
+		if _, ok := before[k]; !ok {
+			out = append(out, k+" added")
+		}
+	}
+	return strings.Join(out, ", ")
 }
 
 func (o Outcome) Key() string {
@@ -334,10 +378,12 @@ func Exec(set *jet.Set, c Call, tag string) Outcome {
 	}
 	data := c.Data.Data()
 	var xerr error
+	before := varsSnapshot(vm)
 	o.Panic = sim.Guard(func() { xerr = t.Execute(w, vm, data) })
 	if xerr != nil {
 		o.Err = xerr.Error()
 	}
+	o.VarsChanged = varsDiff(before, varsSnapshot(vm))
 	o.Out = string(w.Buf)
 	return o
 }
